@@ -626,7 +626,6 @@ func IsTail(match func(string) bool) func(ssa.CallInstruction) bool {
 	return func(c ssa.CallInstruction) bool { return match(CalleeName(c)) }
 }
 
-
 // globalNonNil: a package-level variable that is assigned exactly once, in the package
 // initialiser, with a non-nil value (the sentinel-error idiom `var ErrX = errors.New(...)`).
 func globalNonNil(g *ssa.Global, memo nonNilMemo, depth int) bool {
